@@ -20,6 +20,16 @@ MODULES = {
 }
 
 try:
+    import gen_fixed
+    MODULES['Fixed'] = gen_fixed.generate
+except ImportError:
+    pass
+try:
+    import gen_coord
+    MODULES['Coord'] = gen_coord.generate
+except ImportError:
+    pass
+try:
     import gen_print
     MODULES['Print'] = gen_print.generate
 except ImportError:
